@@ -10,6 +10,13 @@ from pycoin.symbols.btc import network as BTC
 from pycoin.coins.tx_utils import split_with_remainder, distribute_from_split_pool
 from pycoin import convention
 
+MANIFEST = {
+    "text": "Lean theorems over the model of split_with_remainder / distribute_from_split_pool / fee / validate_unspents / Decimal conversions "
+            "(sum, shape, positivity, exact error thresholds, soundness of validate_unspents, satoshi<->BTC/mBTC round trip below 10^20) for all inputs; "
+            "model tied to the code by differential correspondence through create_tx, Tx.fee, validate_unspents and convention on every run.",
+    "note": "Modelled not verified: decimal.Decimal (precision 28, half-even) and the deprecated fee='standard' estimator (excluded).",
+    "technique": "Lean 4 proof (induction/omega over an executable model) + differential correspondence model vs implementation",
+}
 RULE = ("ops split/distribute/sat2btc/btc2sat/sat2mbtc/mbtc2sat/validate_unspents; boundary corpus (every remainder class for "
         "1..12 split outputs, both error thresholds) + seeded random; distinct = distinct op line; trivial = split pool absent")
 ASSUMPTIONS = ["decimal.Decimal modelled as coefficient*10^exp with precision 28 and ROUND_HALF_EVEN",
